@@ -57,25 +57,42 @@ def run(R):
             R.violation("C05.err", "get_joined_row|index_for|bypassed",
                         "get_joined_row can return before (or without) reporting a missing join column of the queried table: with an empty joined "
                         "file a wrong column name looks like an empty result", [gj.loc(badb) if badb is not None else ix[0].loc()])
-    # ---- NULL keys
-    for fname, sink, which in (("JoinedTableData::add_row", r"^std::collections::hash::map::HashMap::entry$", "insert"),
-                               ("JoinedTableData::get_joined_row", r"^std::collections::hash::map::HashMap::get$", "lookup")):
-        f = R.need_fn(J + fname)
-        sinks = PR.calls_matching(f, sink)
-        isn = PR.calls_matching(f, r"^sqlgrep::model::Value::(is_null|is_not_null)$")
-        ok = False
-        for c in isn:
-            g = PR.bool_guard(f, c)
-            if not g:
-                continue
-            nonnull_edge = g[2] if short(c.name).endswith("is_null") else g[1]
-            if sinks and all(f.dominates(nonnull_edge, s.bb) for s in sinks):
-                ok = True
-        if sinks and ok:
-            R.ok("C05.nullkey", fname + "|" + which, "index %s only behind a NOT NULL test of the key" % which, sinks[0].loc())
+    # ---- NULL keys: every access of the Value-keyed index happens on paths where the key was tested to be non-NULL
+    def ident(fn_, op):
+        out = set()
+        for o in F.origins(fn_, op, depth=10):
+            if o.kind == "arg":
+                out.add(("arg", o.arg))
+            elif o.kind == "call" and not F.TRANSPARENT.search(short(o.call.name)):
+                out.add(("call", o.call.bb))
+        return out
+    for fname, which in (("JoinedTableData::add_row", "insert"), ("JoinedTableData::get_joined_row", "lookup")):
+        f0 = R.need_fn(J + fname)
+        f = PR.view(P, f0, keep=r"^sqlgrep::model::Value::(is_null|is_not_null)$")
+        fa = PR.facts(f)
+        sinks = [c for c in f.calls if re.search(r"^std::collections::hash::map::HashMap::(entry|insert|get|get_mut|contains_key|remove)$", short(c.name))
+                 and (c.func.get("res_targs") or c.targs)[:1] == ["sqlgrep::model::Value"]]
+        if not sinks:
+            R.violation("C05.nullkey", fname + "|" + which, "%s no longer accesses a HashMap keyed by the join value" % f0.path, [f0.loc()])
+            continue
+        bad = None
+        for sk in sinks:
+            kid = ident(f, sk.args[1])
+            ok = False
+            for call, val in fa.call_facts(sk.bb):
+                sn = short(call.name)
+                if (sn.endswith("Value::is_null") and val is False) or (sn.endswith("Value::is_not_null") and val is True):
+                    if ident(f, call.args[0]) & kid:
+                        ok = True
+            if not ok:
+                bad = sk
+        if bad is None:
+            R.ok("C05.nullkey", fname + "|" + which, "every index %s happens only where the key was tested non-NULL (%d access(es))" % (which, len(sinks)),
+                 sinks[0].loc())
         else:
-            R.violation("C05.nullkey", fname + "|" + which, "the join index %s is not guarded by a NULL test of the key: rows whose join column is "
-                                                            "NULL on both sides would be joined" % which, [f.loc()])
+            R.violation("C05.nullkey", fname + "|" + which, "the join index %s (%s) is reachable without a NULL test of the key: rows whose join "
+                                                            "column is NULL on both sides would be joined" % (which, short(bad.name).split("::")[-1]),
+                        [bad.loc()])
     # ---- partner loop
     ej = R.need_fn(J + "execute_join")
     nxt = [c for c in ej.calls if short(c.name).endswith("slice::iter::Iter<'a, T> as core::iter::traits::iterator::Iterator>::next")]
@@ -134,8 +151,9 @@ def run(R):
             R.ok("C05.pairs", g_.spath.split("::")[-1], "no early return on an empty pair result", g_.loc())
     # bucket type
     a = P.adts.get(J + "JoinedTableData")
-    rows_ty = [fl["ty"] for v in (a or {"variants": []})["variants"] for fl in v["fields"] if fl["name"] == "rows"]
-    if rows_ty and "alloc::vec::Vec<sqlgrep::data_model::Row>" in rows_ty[0]:
+    rows_ty = [fl["ty"] for v in (a or {"variants": []})["variants"] for fl in v["fields"] if "sqlgrep::data_model::Row" in fl["ty"]]
+    if rows_ty and all("alloc::vec::Vec<sqlgrep::data_model::Row>" in t and t.startswith("std::collections::hash::map::HashMap<sqlgrep::model::Value")
+                       for t in rows_ty):
         R.ok("C05.pairs", "bucket-type", "partners of a key are kept in a Vec (joined-file order)", "src/execution/join.rs")
     else:
         R.violation("C05.pairs", "bucket-type", "partners of a key are not kept in an insertion-ordered Vec<Row> (%s)" % rows_ty, ["src/execution/join.rs"])
@@ -178,43 +196,44 @@ def run(R):
     else:
         R.violation("C05.star", "create_joined_column_mapping", "`*` over a join does not list the queried table's columns followed by the joined "
                                                                   "table's columns in definition order (%s)" % why, [cm.loc()])
-    # ---- outer row
-    fe = [c for c in ej.calls if short(c.name) == "alloc::vec::from_elem"]
-    if len(fe) == 1:
-        c = fe[0]
-        elem_null = any(s["rv"]["k"] == "aggr" and s["rv"].get("variant") == "Null" and s["pl"]["l"] == (c.args[0]["pl"]["l"] if c.args[0]["k"] != "const" else -1)
-                        for i, s in ej.stmts() if s["k"] == "assign")
-        len_ok = any(o.kind == "call" and short(o.call.name) == "alloc::vec::Vec::len" and
-                     any(oo.place is not None and isinstance(oo.place, dict) and "p" in oo.place and
-                         ("fully_qualified_column_names" in place_fields(oo.place) or "column_names" in place_fields(oo.place))
-                         for oo in F.origins(ej, o.call.args[0], depth=6))
-                     for o in F.origins(ej, c.args[1], depth=4))
+    # ---- outer row (on execute_join with its local helpers inlined; guards read as path facts, so `a && b`, a predicate
+    #      function or early returns are all the same to the rule)
+    ejv = PR.view(P, ej, keep=r"JoinedTableData::get_joined_row$|::create_joined_column_mapping$|::extend_option_result_row$")
+    fe = [c for c in ejv.calls if short(c.name) == "alloc::vec::from_elem"]
+    fa = PR.facts(ejv)
+    if not fe:
+        R.violation("C05.outer", "execute_join|shape", "no all-NULL row (vec![NULL; n]) is built for an OUTER JOIN without partner", [ej.loc()])
+    for c in fe:
+        elem_null = any(o.kind == "aggr" or (o.kind == "const") for o in F.origins(ejv, c.args[0], depth=4)) and \
+            any(st["rv"]["k"] == "aggr" and st["rv"].get("variant") == "Null" for i, st in ejv.stmts()
+                if st["k"] == "assign" and c.args[0]["k"] != "const" and st["pl"]["l"] == c.args[0]["pl"]["l"])
+        len_ok = False
+        for o in F.origins(ejv, c.args[1], depth=6):
+            if o.kind == "call" and short(o.call.name) == "alloc::vec::Vec::len":
+                sp = F.source_place(ejv, o.call.args[0])
+                flds = [e for e in (sp["p"] if sp else []) if isinstance(e, dict) and "f" in e]
+                if flds and (flds[-1].get("adt") or "").endswith("join::JoinedTableData") and "alloc::string::String" in (flds[-1].get("ty") or ""):
+                    len_ok = True
         conds = set()
-        for gsw, lab, tgt in F.guards_dominating(ej, c.bb):
-            info = F.switch_info(ej, gsw)
-            if info and info[0] == "bool":
-                pos, os_ = F.bool_edge_polarity(ej, gsw, lab)
-                d = ej.blocks[gsw]["term"]["discr"]
-                for i, s in ej.stmts():
-                    if s["k"] == "assign" and d["k"] in ("copy", "move") and s["pl"]["l"] == d["pl"]["l"] and s["rv"]["k"] == "use" and \
-                            s["rv"]["op"]["k"] in ("copy", "move"):
-                        pl = s["rv"]["op"]["pl"]
-                        flds = place_fields(pl)
-                        if flds:
-                            conds.add((flds[-1], pos))
-                        elif 1 <= pl["l"] <= ej.arg_count and ej.local_ty(pl["l"]) == "bool":
-                            conds.add(("allow_outer", pos))
-            if info and info[0] == "discr":
-                vn = F.variant_of_label(info[1], lab)
-                if lab == "otherwise" or vn == "None":
-                    conds.add(("no-partner", True))
-        if elem_null and len_ok and ("is_outer", True) in conds and ("allow_outer", True) in conds and ("no-partner", True) in conds:
-            R.ok("C05.outer", "execute_join", "vec![NULL; joined columns] only on the no-partner arm under is_outer && allow_outer", c.loc())
+        for flds, root, val in fa.place_facts(c.bb):
+            if val is True and 1 <= root <= ejv.arg_count and not flds and ejv.local_ty(root) == "bool":
+                conds.add("allow_outer")
+        for key, val in fa.at(c.bb):
+            a_ = fa.atoms.get(key, {})
+            if a_.get("kind") == "place" and val is True:
+                fe_ = [e for e in a_["place"]["p"] if isinstance(e, dict) and "f" in e]
+                if fe_ and (fe_[-1].get("adt") or "").endswith("model::JoinClause") and fe_[-1].get("ty") == "bool":
+                    conds.add("is_outer")
+        for call, val in fa.call_facts(c.bb):
+            if short(call.name).endswith("JoinedTableData::get_joined_row") and val == "None":
+                conds.add("no-partner")
+        if not fa.ok:
+            R.note("C05.outer: path facts unavailable for execute_join (state cap)")
+        if elem_null and len_ok and conds >= {"is_outer", "allow_outer", "no-partner"}:
+            R.ok("C05.outer", "execute_join", "vec![NULL; joined columns] only without a partner under is_outer && allow_outer", c.loc())
         else:
-            R.violation("C05.outer", "execute_join|outer-row", "OUTER row: all NULL=%s, one per joined column=%s, guards=%s" % (elem_null, len_ok, sorted(conds)),
-                        [c.loc()])
-    else:
-        R.violation("C05.outer", "execute_join|shape", "expected one vec![NULL; n] for the OUTER row (found %d)" % len(fe), [ej.loc()])
+            R.violation("C05.outer", "execute_join|outer-row", "OUTER row: all NULL=%s, one per joined column=%s, holds on every path to it: %s "
+                                                               "(needs no partner, is_outer, allow_outer)" % (elem_null, len_ok, sorted(conds)), [c.loc()])
     # ---- side mapping in the converter
     tj = R.need_fn("sqlgrep::parsing::parser_tree_converter::transform_join")
     jcs = [(i, s) for i, s in tj.stmts() if s["k"] == "assign" and s["rv"]["k"] == "aggr" and s["rv"].get("variant") == "JoinClause"]
